@@ -32,7 +32,8 @@ fn main() {
             let max_len = if s.quick() { 6 } else { 7 };
             s.enumerate("e2-small-scope", e2::small_cases(max_len, &[1, 2]), |c, cx| e2::check(&c.to_case(), Prop::C08, cx));
             s.gen("e7-os-threads", s.n(3_000, 150_000), || e7::workload(3), |c, cx| e7::check(c, Prop::C08, cx));
-        s.gen("e7-blocking-contexts", s.n(240, 6_000), e7::blocking_case, |c, cx| e7::check_blocking(c, cx));
+        s.require("timeout:far-end-of-duration", 40);
+        s.gen("e7-blocking-contexts", s.n(720, 12_000), e7::blocking_case, |c, cx| e7::check_blocking(c, cx));
             // OTLP end-to-end clause of this property (real emit_otlp emitter against the scripted collector; harness/c12/src/e2e.rs)
             c12::e2e::register_c08(s);
         },
